@@ -283,21 +283,40 @@ func genStruct(t *rapid.T, o *Opts, depth int, top bool) TypeDesc {
 		maxOwn = 3
 	}
 	nOwn := rapid.IntRange(1, maxOwn).Draw(t, "nfields")
-	type emb struct {
+	// embedded (anonymous) structs: chains of 1..4 levels of embedding, by value
+	// or through a pointer at each level, with >= 2 tagged sibling fields at the
+	// deepest level and 1..2 fields at every intermediate level
+	type level struct {
 		ptr bool
 		n   int
 		at  int
+	}
+	type emb struct {
+		levels []level // [0] is embedded in this struct, [i+1] in [i]
+		at     int
 	}
 	var embs []emb
 	if shape == 3 {
 		ne := rapid.IntRange(1, 2).Draw(t, "nemb")
 		for i := 0; i < ne; i++ {
-			embs = append(embs, emb{ptr: rapid.Bool().Draw(t, "embptr"), n: rapid.IntRange(1, 3).Draw(t, "embn"), at: rapid.IntRange(0, nOwn).Draw(t, "embat")})
+			nl := 1 + weighted(t, "emblevels", []int{30, 20, 30, 20})
+			e := emb{at: rapid.IntRange(0, nOwn).Draw(t, "embat")}
+			for l := 0; l < nl; l++ {
+				lv := level{ptr: rapid.Bool().Draw(t, "embptr"), n: rapid.IntRange(1, 2).Draw(t, "embn")}
+				if l == nl-1 {
+					lv.n = rapid.IntRange(2, 3).Draw(t, "embn")
+				}
+				lv.at = rapid.IntRange(0, lv.n).Draw(t, "embat")
+				e.levels = append(e.levels, lv)
+			}
+			embs = append(embs, e)
 		}
 	}
 	total := nOwn
 	for _, e := range embs {
-		total += e.n
+		for _, lv := range e.levels {
+			total += lv.n
+		}
 	}
 	ids := genIDs(t, total, o)
 	// declaration order: ascending, descending or shuffled
@@ -349,19 +368,36 @@ func genStruct(t *rapid.T, o *Opts, depth int, top bool) TypeDesc {
 		d.Fields = append(d.Fields, mk(c, depth))
 	}
 	for _, e := range embs {
-		inner := TypeDesc{K: KStruct}
-		for i := 0; i < e.n; i++ {
-			inner.Fields = append(inner.Fields, mk(cField, depth+1))
+		var build func(l int) FieldDesc
+		build = func(l int) FieldDesc {
+			lv := e.levels[l]
+			inner := TypeDesc{K: KStruct}
+			for i := 0; i < lv.n; i++ {
+				if rapid.IntRange(0, 9).Draw(t, "embscalar") < 6 {
+					f := FieldDesc{ID: ids[next], T: genScalar(t)}
+					next++
+					inner.Fields = append(inner.Fields, f)
+				} else {
+					inner.Fields = append(inner.Fields, mk(cField, depth+1+l))
+				}
+			}
+			if l+1 < len(e.levels) {
+				child := build(l + 1)
+				at := lv.at
+				inner.Fields = append(inner.Fields[:at:at], append([]FieldDesc{child}, inner.Fields[at:]...)...)
+			}
+			fd := FieldDesc{Emb: true, T: inner}
+			if lv.ptr {
+				fd.T = TypeDesc{K: KPtr, Elem: &inner}
+			}
+			return fd
 		}
-		fd := FieldDesc{Emb: true, T: inner}
-		if e.ptr {
-			fd.T = TypeDesc{K: KPtr, Elem: &inner}
-		}
+		fd := build(0)
 		at := e.at
 		if at > len(d.Fields) {
 			at = len(d.Fields)
 		}
-		d.Fields = append(d.Fields[:at], append([]FieldDesc{fd}, d.Fields[at:]...)...)
+		d.Fields = append(d.Fields[:at:at], append([]FieldDesc{fd}, d.Fields[at:]...)...)
 	}
 	return d
 }
@@ -373,10 +409,14 @@ type vgen struct {
 	o      *Opts
 	budget int
 	depth  int
+	emb    int // > 0 while generating the value of an embedded struct
+	seq    int
 }
 
 var intBoundaries = []int64{0, 1, -1, 2, 63, 64, -64, -65, 127, 128, -128, -129, 255, 8191, 8192, -8192, -8193, 32767, -32768, 1 << 20, -(1 << 20) - 1,
-	1<<27 - 1, 1 << 27, math.MaxInt32, math.MinInt32, 1 << 34, -(1 << 34) - 1, 1<<55 - 1, 1 << 62, math.MaxInt64, math.MinInt64}
+	1<<27 - 1, 1 << 27, math.MaxInt32, math.MinInt32, 1 << 34, -(1 << 34) - 1, 1<<55 - 1, 1 << 62, math.MaxInt64, math.MinInt64,
+	// every big-endian byte non-zero and distinct (a stale or shifted byte shows)
+	0x12, 0x1234, -0x1234, 0x12345678, -0x12345678, 0x1122334455667788, -0x1122334455667788}
 
 func genInt(t *rapid.T, k Kind) int64 {
 	lo, hi := IntRange(k)
@@ -387,7 +427,7 @@ func genInt(t *rapid.T, k Kind) int64 {
 }
 
 var f64Special = []uint64{0, 1 << 63, 0x3ff0000000000000, 0xbff0000000000000, 0x7ff0000000000000, 0xfff0000000000000, 0x7ff8000000000000,
-	0x7ff8000000000001, 0xfff8000000abcdef, 0x7ff4000000000000, 1, 0x000fffffffffffff, 0x7fefffffffffffff, 0x0102030405060708, 0x3ff8000000000000}
+	0x7ff8000000000001, 0xfff8000000abcdef, 0x7ff4000000000000, 1, 0x000fffffffffffff, 0x7fefffffffffffff, 0x0102030405060708, 0x3ff8000000000000, 0x3fb999999999999a /* 0.1 */, 0xc05ec7ae147ae148}
 var f32Special = []uint32{0, 1 << 31, 0x3f800000, 0xbf800000, 0x7f800000, 0xff800000, 0x7fc00000, 1, 0x007fffff, 0x7f7fffff, 0x01020304, 0x3fc00000}
 
 func genF64(t *rapid.T, key bool) uint64 {
@@ -432,7 +472,7 @@ func genBytes(t *rapid.T, small bool) []byte {
 	if small {
 		return rapid.SliceOfN(rapid.Byte(), 9, 20).Draw(t, "bytes")
 	}
-	n := rapid.SampledFrom([]int{127, 128, 129, 300}).Draw(t, "biglen")
+	n := rapid.SampledFrom([]int{127, 128, 129, 256, 300, 4660}).Draw(t, "biglen")
 	b := make([]byte, n)
 	seed := rapid.Byte().Draw(t, "fill")
 	for i := range b {
@@ -626,14 +666,46 @@ func (g *vgen) val(d *TypeDesc, c ctx, noNil bool) Recipe {
 				r.E[i] = g.val(&f.T, cKey, true)
 				continue
 			}
+			if f.Emb {
+				// embedded struct (or pointer to one): present in 7 of 8 cases, its
+				// scalar fields distinct and non-zero so that a field decoded into a
+				// sibling's place cannot go unnoticed
+				g.emb++
+				r.E[i] = g.val(&f.T, cField, rapid.IntRange(0, 7).Draw(g.t, "embnil") != 0)
+				g.emb--
+				continue
+			}
 			// sparse structs: a non-required field is often left zero
-			if !f.Req && !f.Emb && rapid.IntRange(0, 3).Draw(g.t, "zero") == 0 {
+			if g.emb == 0 && !f.Req && rapid.IntRange(0, 3).Draw(g.t, "zero") == 0 {
 				if f.T.K == KPtr || f.T.K == KList || f.T.K == KMap || f.T.K == KSet || f.T.K == KBytes {
 					r.E[i] = Recipe{Nil: true}
 				}
 				continue
 			}
 			r.E[i] = g.val(&f.T, cField, f.Req)
+			if g.emb > 0 {
+				g.seq++
+				switch k := Resolve(&f.T).K; {
+				case isInt(k):
+					if r.E[i].I == 0 {
+						r.E[i].I = int64(1 + g.seq%100)
+					}
+				case k == KBool:
+					r.E[i].I = 1
+				case k == KStr || k == KBytes:
+					if len(r.E[i].B) == 0 {
+						r.E[i] = Recipe{B: []byte{'e', byte('0' + g.seq%10)}}
+					}
+				case k == KF64:
+					if math.Float64frombits(r.E[i].F) == 0 {
+						r.E[i].F = math.Float64bits(float64(g.seq) + 0.5)
+					}
+				case k == KF32:
+					if math.Float32frombits(uint32(r.E[i].F)) == 0 {
+						r.E[i].F = uint64(math.Float32bits(float32(g.seq) + 0.5))
+					}
+				}
+			}
 			if f.Enum {
 				if r.E[i].I > math.MaxInt32 || r.E[i].I < math.MinInt32 {
 					r.E[i].I = int64(int32(r.E[i].I))
@@ -665,6 +737,7 @@ func GenRecipe(t *rapid.T, d *TypeDesc, o *Opts) Recipe {
 func TypeLabels(d *TypeDesc) []string {
 	set := map[string]bool{}
 	seen := map[string]bool{}
+	maxEmbDepth := 0
 	var walk func(d *TypeDesc, pos string)
 	walk = func(d *TypeDesc, pos string) {
 		if d.K == KNamed {
@@ -731,6 +804,13 @@ func TypeLabels(d *TypeDesc) []string {
 				}
 				if len(f.Path) > 1 {
 					set["embedded"] = true
+					lv := len(f.Path) - 1
+					if lv > 4 {
+						lv = 4
+					}
+					if lv > maxEmbDepth {
+						maxEmbDepth = lv
+					}
 				}
 			}
 			for i := range d.Fields {
@@ -772,6 +852,12 @@ func TypeLabels(d *TypeDesc) []string {
 		}
 	}
 	walk(d, "top")
+	if maxEmbDepth > 0 { // deepest chain of anonymous embedding of any struct of the type
+		set[fmt.Sprintf("embed-depth=%d", maxEmbDepth)] = true
+		if maxEmbDepth >= 3 {
+			set["embed-depth>=3"] = true
+		}
+	}
 	out := make([]string, 0, len(set))
 	for k := range set {
 		out = append(out, k)
@@ -976,4 +1062,28 @@ func GenTree(t *rapid.T, ty thriftspec.T, depth int, budget *int) thriftspec.Val
 		panic(fmt.Sprint("tgen: GenTree ", ty))
 	}
 	return v
+}
+
+// GenDirtyScalar draws a scalar content value every byte of whose fixed-width
+// big-endian form is non-zero (integers of all widths, doubles), or a string
+// whose length needs two or three bytes (>= 256, >= 65536).
+func GenDirtyScalar(t *rapid.T) thriftspec.Value {
+	switch rapid.IntRange(0, 6).Draw(t, "dirty") {
+	case 0:
+		return thriftspec.Value{T: thriftspec.I16, I: rapid.SampledFrom([]int64{0x1234, -0x1234, 0x7f7f}).Draw(t, "d16")}
+	case 1:
+		return thriftspec.Value{T: thriftspec.I32, I: rapid.SampledFrom([]int64{0x12345678, -0x12345678, 0x7a6b5c4d}).Draw(t, "d32")}
+	case 2:
+		return thriftspec.Value{T: thriftspec.I64, I: rapid.SampledFrom([]int64{0x1122334455667788, -0x1122334455667788, 0x0102030405060708}).Draw(t, "d64")}
+	case 3:
+		return thriftspec.Value{T: thriftspec.Double, F: rapid.SampledFrom([]uint64{0x3fb999999999999a, 0xc05ec7ae147ae148, 0x0102030405060708}).Draw(t, "dd")}
+	case 4:
+		return thriftspec.Value{T: thriftspec.Byte, I: 0x5a}
+	}
+	n := rapid.SampledFrom([]int{256, 300, 4660, 4660, 65536, 74565}).Draw(t, "dlen")
+	b := make([]byte, n)
+	for i := range b {
+		b[i] = byte('a' + i%23)
+	}
+	return thriftspec.Value{T: thriftspec.String, S: b}
 }
